@@ -390,6 +390,46 @@ def scan_unsynchronised_mutables(root="/repo/einx/_src"):
                     v = node.value
                     if isinstance(v, (ast.Dict, ast.List, ast.Set)) or (isinstance(v, ast.Call) and ast.unparse(v.func) in ("dict", "list", "set", "defaultdict", "collections.defaultdict", "OrderedDict", "collections.OrderedDict")):
                         objs[node.targets[0].id] = "module-level " + type(v).__name__
+            # objects created in an enclosing function (decorator factories: one object per decorated function, shared by
+            # all its calls) and mutated in the inner function
+            for outer in ast.walk(tree):
+                if not isinstance(outer, (ast.FunctionDef, ast.AsyncFunctionDef)):
+                    continue
+                created = {}
+                for st in ast.walk(outer):
+                    if isinstance(st, ast.Assign) and len(st.targets) == 1 and isinstance(st.targets[0], ast.Name) and isinstance(st.value, (ast.Call, ast.Dict, ast.List, ast.Set)):
+                        if not any(st in ast.walk(inner_) for inner_ in ast.walk(outer) if inner_ is not outer and isinstance(inner_, (ast.FunctionDef, ast.AsyncFunctionDef))):
+                            created[st.targets[0].id] = st.lineno
+                if not created:
+                    continue
+                returned = {r.value.id for r in ast.walk(outer) if isinstance(r, ast.Return) and isinstance(r.value, ast.Name)}
+                for inner in ast.walk(outer):
+                    if inner is outer or not isinstance(inner, (ast.FunctionDef, ast.AsyncFunctionDef)):
+                        continue
+                    if inner.name not in returned:
+                        continue  # a helper that lives only during one call of the enclosing function
+                    locked_i = set()
+                    for w in ast.walk(inner):
+                        if isinstance(w, ast.With) and any("lock" in ast.unparse(i_.context_expr).lower() for i_ in w.items):
+                            locked_i |= {id(x) for x in ast.walk(w)}
+                    for name in created:
+                        muts, refs = [], set()
+                        for n in ast.walk(inner):
+                            if isinstance(n, ast.Name) and n.id == name:
+                                refs.add(n.lineno)
+                            tgt = None
+                            if isinstance(n, ast.Attribute) and isinstance(n.ctx, (ast.Store, ast.Del)) and isinstance(n.value, ast.Name):
+                                tgt = n.value.id
+                            elif isinstance(n, ast.Subscript) and isinstance(n.ctx, (ast.Store, ast.Del)) and isinstance(n.value, ast.Name):
+                                tgt = n.value.id
+                            elif isinstance(n, ast.AugAssign) and isinstance(n.target, ast.Subscript) and isinstance(n.target.value, ast.Name):
+                                tgt = n.target.value.id
+                            elif isinstance(n, ast.Call) and isinstance(n.func, ast.Attribute) and n.func.attr in MUTATORS and isinstance(n.func.value, ast.Name):
+                                tgt = n.func.value.id
+                            if tgt == name and id(n) not in locked_i:
+                                muts.append(n.lineno)
+                        if muts and not any(x["file"] == os.path.relpath(p, "/repo") and x["function"] == inner.name and x["object"] == name for x in found):
+                            found.append({"file": os.path.relpath(p, "/repo"), "function": inner.name, "object": name, "kind": f"object created in {outer.name}() and shared by all calls of the function it returns", "line": min(muts), "lines": sorted(refs), "closure": True})
             for f in ast.walk(tree):
                 if not isinstance(f, (ast.FunctionDef, ast.AsyncFunctionDef)):
                     continue
@@ -532,13 +572,13 @@ TABLE_REPLAY = r'''#!/venv/bin/python
 `{obj}`; thread B then runs a whole first-time einx call; A resumes. Every pair of calls of a small pool is tried
 in a fresh interpreter; outcomes are compared with numpy (= what every serial order gives)."""
 import json, subprocess, sys
-FILE, FUNC, LINE = {file!r}, {function!r}, {line}
+FILE, FUNC, LINES, CLOSURE = {file!r}, {function!r}, {lines!r}, {closure!r}
 CHILD = r"""
 import json, sys, threading
 sys.path.insert(0, "/repo")
 import numpy as np
 import einx
-FILE, FUNC, LINE, I, J = sys.argv[1], sys.argv[2], int(sys.argv[3]), int(sys.argv[4]), int(sys.argv[5])
+FILE, FUNC, LINE, I, J, WARM = sys.argv[1], sys.argv[2], int(sys.argv[3]), int(sys.argv[4]), int(sys.argv[5]), sys.argv[6] == "warm"
 X, Y, Z = np.arange(6.0).reshape(2, 3) + 1, np.arange(12.0).reshape(3, 4) - 3, np.arange(6.0).reshape(3, 2) * 2 - 1
 POOL = [
     (lambda: einx.dot("a b, b c -> a c", X, Y), X @ Y),
@@ -549,7 +589,12 @@ POOL = [
     (lambda: einx.add("b a, a -> a b", X, X[0]), (X + X[0]).T),
     (lambda: einx.id("b a -> a b", X), X.T),
     (lambda: einx.multiply("c a, a b -> b c a", X, Y, backend="numpy.einsum"), np.einsum("ca,ab->bca", X, Y)),
+    (lambda: einx.sum("[a] b -> b", X), X.sum(0)),
+    (lambda: einx.add("b a, a -> b a", X, X[0]), X + X[0]),
+    (lambda: einx.id("b a -> (a b)", X), X.T.reshape(-1)),
 ]
+if WARM:
+    POOL[I][0]()  # the paused call repeats the signature of this op's previous call
 a_in, b_done = threading.Event(), threading.Event()
 def tracer(frame, event, arg):
     if event == "call":
@@ -558,8 +603,10 @@ def tracer(frame, event, arg):
             return local
         return tracer
     return None
+reached = []
 def local(frame, event, arg):
     if event == "line" and frame.f_lineno > LINE and not a_in.is_set():
+        reached.append(frame.f_lineno)
         a_in.set(); b_done.wait(20)
     return local
 out = {{}}
@@ -580,24 +627,31 @@ for k, idx in (("A", I), ("B", J)):
     try: again[k] = np.asarray(POOL[idx][0]()).tolist()
     except Exception as e: again[k] = "raised " + type(e).__name__
 exp = {{"A": POOL[I][1].tolist(), "B": POOL[J][1].tolist()}}
-print("RESULT " + json.dumps({{"ok": out == exp and again == exp, "out": out, "again": again, "expected": exp}}))
+print("RESULT " + json.dumps({{"ok": out == exp and again == exp, "out": out, "again": again, "expected": exp, "reached": bool(reached)}}))
 """
-bad = []
+bad, tried, never = [], 0, 0
 n = 8
-for i in range(n):
-    for j in range(n):
-        if i == j: continue
-        p = subprocess.run(["/venv/bin/python", "-c", CHILD, FILE, FUNC, str(LINE), str(i), str(j)], capture_output=True, text=True, timeout=180)
-        line = [l for l in p.stdout.splitlines() if l.startswith("RESULT ")]
-        if not line:
-            print("pair", i, j, "child failed:", p.stderr[-300:]); continue
-        r = json.loads(line[0][7:])
-        if not r["ok"]:
-            bad.append((i, j, r))
-            if len(bad) <= 3:
-                print("pair (A=call %d paused in %s, B=call %d):" % (i, FUNC, j)); print("  during :", r["out"]); print("  repeat :", r["again"]); print("  serial :", r["expected"])
+SAME_OP = [(4, 8), (8, 4), (5, 9), (9, 5), (6, 10), (10, 6), (0, 1), (1, 0), (0, 2), (2, 0)]  # two signatures of one einx operation
+if CLOSURE:
+    plan = [(line, mode, i, j) for line in LINES for mode in ("warm", "cold") for i, j in SAME_OP]
+else:
+    plan = [(LINES[0], "cold", i, j) for i in range(n) for j in range(n) if i != j]
+for line_no, mode, i, j in plan:
+    tried += 1
+    p = subprocess.run(["/venv/bin/python", "-c", CHILD, FILE, FUNC, str(line_no), str(i), str(j), mode], capture_output=True, text=True, timeout=180)
+    line = [l for l in p.stdout.splitlines() if l.startswith("RESULT ")]
+    if not line:
+        print("pair", i, j, "child failed:", p.stderr[-300:]); continue
+    r = json.loads(line[0][7:])
+    never = (never + 1) if not r.get("reached") else -10**6
+    if never >= 4:
+        print("the function is not reached by the pool calls (its code path is inactive in this configuration)"); break
+    if not r["ok"]:
+        bad.append((i, j, r))
+        if len(bad) <= 3:
+            print("pair (A=call %d %s, paused in %s after line %d, B=call %d):" % (i, mode, FUNC, line_no, j)); print("  during :", r["out"]); print("  repeat :", r["again"]); print("  serial :", r["expected"])
 if bad:
-    print("REPRODUCED: %d of %d call pairs give outcomes that no serial order gives" % (len(bad), n * (n - 1))); sys.exit(1)
+    print("REPRODUCED: %d of %d interleavings give outcomes that no serial order gives" % (len(bad), tried)); sys.exit(1)
 print("NOT-REPRODUCED"); sys.exit(0)
 '''
 
@@ -606,7 +660,7 @@ def write_table_replay(cand):
     os.makedirs(os.path.join(runner.REPLAY_DIR, PROP), exist_ok=True)
     path = os.path.join(runner.REPLAY_DIR, PROP, f"shared_{os.path.basename(cand['file'])[:-3]}_{cand['function']}_{cand['object']}.py")
     with open(path, "w") as f:
-        f.write(TABLE_REPLAY.format(file=cand["file"], function=cand["function"], obj=cand["object"], line=cand["line"]))
+        f.write(TABLE_REPLAY.format(file=cand["file"], function=cand["function"], obj=cand["object"], lines=(cand.get("lines") or [cand["line"]]), closure=bool(cand.get("closure"))))
     return path
 
 
